@@ -144,11 +144,13 @@ func discoverRepositories(rootPaths []string) ([]repositorySpec, error) {
 			if previous, ok := byName[repo.Name]; ok {
 				return nil, fmt.Errorf("duplicate repository name %q for %s and %s", repo.Name, previous.Source, repo.Source)
 			}
-			if previous, ok := bySource[repo.Source]; ok {
+			// Same key as planPrune's: a repository and its own .git directory are one source.
+			source := normalizeSource(repo.Source)
+			if previous, ok := bySource[source]; ok {
 				return nil, fmt.Errorf("repository %s was discovered by more than one root as %q and %q", repo.Source, previous.Name, repo.Name)
 			}
 			byName[repo.Name] = repo
-			bySource[repo.Source] = repo
+			bySource[source] = repo
 			repositories = append(repositories, repo)
 		}
 	}
